@@ -7,8 +7,8 @@
  * Control (environment):
  *   HDW_ENTROPY_MODE   "list:<file>"  one answer per line, consumed in request order: "ok <hex>" or "fail";
  *                                      after the last line every request fails (the horizon)
- *                      "stream:<seed>[:<fail_at>]"  request k (0-based) is answered with bytes derived from (seed, k);
- *                                      request number <fail_at> and all later ones fail
+ *                      "stream:<seed>[:<fail_at>[:once]]"  request k (0-based) is answered with bytes derived from (seed, k);
+ *                                      request number <fail_at> and all later ones fail (with ":once": only that one)
  *   HDW_ENTROPY_LOG    file; one line per scripted request: "<k> <len> <entry point> <ok|fail> <hex of the bytes returned>"
  */
 #define _GNU_SOURCE
@@ -27,7 +27,7 @@
 static pthread_mutex_t mu = PTHREAD_MUTEX_INITIALIZER;
 static int inited = 0, mode = 0; /* 0 passthrough, 1 list, 2 stream */
 static char **list_lines = NULL; static long list_n = 0;
-static uint64_t stream_seed = 0; static long fail_at = -1;
+static uint64_t stream_seed = 0; static long fail_at = -1; static int fail_once = 0;
 static long next_req = 0;
 static FILE *logf = NULL;
 static int urandom_fds[64]; static int n_urandom = 0;
@@ -48,7 +48,7 @@ static void init_locked(void) {
             list_lines = realloc(list_lines, sizeof(char *) * (list_n + 1)); list_lines[list_n++] = strdup(line); }
         free(line); fclose(f);
     } else if (!strncmp(m, "stream:", 7)) {
-        mode = 2; char *end; stream_seed = strtoull(m + 7, &end, 10); if (*end == ':') fail_at = strtol(end + 1, NULL, 10);
+        mode = 2; char *end; stream_seed = strtoull(m + 7, &end, 10); if (*end == ':') { fail_at = strtol(end + 1, &end, 10); if (!strcmp(end, ":once")) fail_once = 1; }
     }
 }
 static int hexval(char c) { if (c >= '0' && c <= '9') return c - '0'; if (c >= 'a' && c <= 'f') return c - 'a' + 10; if (c >= 'A' && c <= 'F') return c - 'A' + 10; return -1; }
@@ -61,7 +61,7 @@ static int scripted(unsigned char *buf, size_t len, const char *entry) {
         if (k >= list_n || !strncmp(list_lines[k], "fail", 4)) ok = 0;
         else { const char *h = list_lines[k] + 3; size_t hl = strlen(h) / 2; if (hl == 0) { memset(buf, 0, len); } else for (size_t i = 0; i < len; i++) { size_t j = i % hl; buf[i] = (unsigned char)(hexval(h[2 * j]) * 16 + hexval(h[2 * j + 1])); } }
     } else {
-        if (fail_at >= 0 && k >= fail_at) ok = 0;
+        if (fail_at >= 0 && (fail_once ? k == fail_at : k >= fail_at)) ok = 0;
         else { uint64_t base = mix(stream_seed, (uint64_t)k); for (size_t i = 0; i < len; i++) buf[i] = (unsigned char)(mix(base, i / 8) >> (8 * (i % 8))); }
     }
     if (logf) { fprintf(logf, "%ld %zu %s %s ", k, len, entry, ok ? "ok" : "fail"); if (ok) for (size_t i = 0; i < len; i++) fprintf(logf, "%02x", buf[i]); fprintf(logf, "\n"); fflush(logf); }
